@@ -161,6 +161,50 @@ fn api_shapes(ctx: &mut Ctx) {
     }
 }
 
+/// nested definitions that MENTION the enclosing calibration's variables (`DEFCAL RX(%t) q`), built through the
+/// API: (text, admitted by `nestedOkB`?) — the excluded ones are the replay of the Lean counterexample
+/// `nested_definition_counterexample` and its siblings (tag `excluded-nested-definition`)
+const NESTED_WITH_VARIABLES: &[(&str, bool)] = &[
+    ("DEFFRAME 0 \"xy\":\n\tINITIAL-FREQUENCY: %t", true),
+    ("DEFCAL RY(%t) 1:\n\tWAIT", true),
+    ("DEFGATE G1(%t):\n\t%t, 0\n\t0, %t", true),
+    ("DEFWAVEFORM w2(%t):\n\t%t, 2*%t", true),
+    ("DEFFRAME q \"xy\":\n\tINITIAL-FREQUENCY: 1e9", false),
+    ("DEFCAL Y q:\n\tNOP", false),
+    ("DEFCAL MEASURE q addr:\n\tNOP", false),
+    ("DEFGATE G2(%t) p AS PAULI-SUM:\n\tX(%t) p", false),
+    ("DEFGATE G3(%t) a AS SEQUENCE:\n\tRZ(%t) a", false),
+];
+
+/// the same inside `DEFCAL MEASURE q addr`: (text, admitted by `admitMB`?)
+const NESTED_IN_MEASURE: &[(&str, bool)] = &[
+    ("DEFFRAME 0 \"xy\":\n\tINITIAL-FREQUENCY: other[0]", true),
+    ("DEFCAL RY(other[1]) 1:\n\tWAIT", true),
+    ("DEFCAL MEASURE 1 addr:\n\tNOP", true),
+    ("DEFFRAME q \"xy\":\n\tINITIAL-FREQUENCY: 1e9", false),
+    ("DEFCAL MEASURE q ro:\n\tNOP", false),
+    ("DEFFRAME 0 \"xy\":\n\tINITIAL-FREQUENCY: addr[0]", false),
+    ("DEFCAL RY(addr[1]) 1:\n\tWAIT", false),
+];
+
+fn nested_with_variables(ctx: &mut Ctx) {
+    for (d, _admitted) in NESTED_IN_MEASURE {
+        let body = vec![one(d), one("FENCE q")];
+        let mut instrs = vec![with_body("DEFCAL MEASURE q addr:\n\tNOP", body)];
+        instrs.extend(calgen::parse_all("MEASURE 2 ro[1]"));
+        expand_cases(ctx, &instrs);
+        prog_case(ctx, instrs);
+    }
+    for (d, _admitted) in NESTED_WITH_VARIABLES {
+        let def = one(d);
+        let body = vec![def, one("NOP")];
+        let mut instrs = vec![with_body("DEFCAL RX(%t) q:\n\tNOP", body)];
+        instrs.extend(calgen::parse_all("RX(0.5) 2\nRX(pi) 0"));
+        expand_cases(ctx, &instrs);
+        prog_case(ctx, instrs);
+    }
+}
+
 fn text_case(ctx: &mut Ctx, parts: &[&str]) {
     let mut instrs = vec![];
     for p in parts {
@@ -316,6 +360,7 @@ fn run(ctx: &mut Ctx) {
     exhaustive(ctx);
     // (2b) API-only shapes: empty bodies, every hoisted definition kind nested in a body
     api_shapes(ctx);
+    nested_with_variables(ctx);
     // (2c) kind sweep: every instruction template alone in a gate calibration and in a measurement calibration,
     // through the program entry points and through `Calibrations::expand`; every template unmatched at top level
     let reps = if ctx.quick() { 2 } else { 20 };
